@@ -140,3 +140,24 @@ def rename_reversed_in(texts: list[str], env: dict):
         new_env[new] = env.get(old.replace(".", "_"), "")
     out = [pat.sub(lambda m: m.group(1) + mapping.get(m.group(2), m.group(2)), t) for t in texts]
     return out, new_env
+
+
+def reversed_in_has_partner(texts: list[str]) -> bool:
+    """F4 needs a partner: some literal-on-the-left in/not in atom's variable occurs in ANOTHER atom
+    of the same case (any orientation).  A lone reversed atom is handled correctly by the library,
+    so a mismatch on a case without such a partner is not F4."""
+    import re
+
+    rev = re.compile(r'"[^"]*"\s+(?:not in|in)\s+([a-z_.]+)')
+    anyvar = re.compile(r'\b(os[._]name|sys[._]platform|platform[._]machine|platform_system|implementation_name|'
+                        r'platform[._]python_implementation|platform[._]version)\b')
+    alltext = " ".join(texts)
+    counts = {}
+    for m in anyvar.finditer(alltext):
+        k = m.group(1).replace(".", "_")
+        counts[k] = counts.get(k, 0) + 1
+    for m in rev.finditer(alltext):
+        k = m.group(1).replace(".", "_")
+        if counts.get(k, 0) >= 2:
+            return True
+    return False
